@@ -64,6 +64,21 @@ func main() {
 	}
 	raiseFileLimit()
 	debug.SetGCPercent(800) // allocation-heavy sweeps; memory is plentiful
+	// ... up to a point: a soft limit makes the collector work harder instead of letting a long thorough run grow to
+	// nine times its live heap (a quarter of the machine's memory, at least 4 GiB, at most 16 GiB)
+	limit := int64(16 << 30)
+	if b, err := os.ReadFile("/proc/meminfo"); err == nil {
+		var kb int64
+		if _, err := fmt.Sscanf(string(b), "MemTotal: %d kB", &kb); err == nil && kb > 0 {
+			if q := kb * 1024 / 4; q < limit {
+				limit = q
+			}
+		}
+	}
+	if limit < 4<<30 {
+		limit = 4 << 30
+	}
+	debug.SetMemoryLimit(limit)
 	ctx := core.NewCtx(id, os.Args[2:])
 	if p := ctx.Args["cpuprofile"]; p != "" {
 		f, _ := os.Create(p)
